@@ -259,18 +259,18 @@ prop("C11", [sel("shape", rules=["R-UNWIND", "R-HIDE", "R-RESTORE", "R-DRAINORDE
 prop("C12", [sel("witness", fn=r"^(W6|W7|W9|<witness>)", keep_rule_floor=False), sel("shape", rules=["R-LEAK", "R-LEAK-DRAIN"]), sel("zero", fn=r"^TooDee::remove"), sel("encaps", fn=r"^(DrainCol|<api>)"), sel("shape", rules=["R-HIDE", "R-DRAINSTEP", "R-RESTORE"], fn=r"(DrainCol|DropGuard|remove_)")],
      "Leak safety: (R-LEAK) a function returning a crate type whose destructor writes the shape returns with a consistent triple as if the destructor never ran; (R-LEAK-DRAIN) a returned std Drain over the buffer is a tail drain, so that Vec's leaked length equals the already-updated dimensions' product; (R-ZERO) the dimensions written eagerly obey the zero rule.  Iterators/views perform no shape write and have no shape-writing drop glue (they are not shape writers in the enumeration).",
      declined=["range.start == new_rows*new_cols for the tail drain (arithmetic, DESIGN 2.4)"])
-prop("C13", L_INV() + [sel("fillshape"), sel("nth"), sel("layout", fn=r"(swap|<rule>)"), sel("guard", fn=SWAPS), sel("units", fn=SWAPS), sel("dup", fn=r"(swap|fill|row_pair)")] + L_ROWCUR("RowsMut") + L_COLCUR("ColMut")[:4] + L_VIEWS(True) + [sel("layout", fn=r"(get_unchecked|<rule>)"), sel("zero", fn=CTORS), sel_dyn(A_SWAPS)],
+prop("C13", L_INV() + [sel("encaps", fn=r"(<raw span>|raw span used by (TooDeeOpsMut|CopyOps|SortOps|TranslateOps|TooDeeViewMut|TooDee as ))"), sel("fillshape"), sel("nth"), sel("layout", fn=r"(swap|<rule>)"), sel("guard", fn=SWAPS), sel("units", fn=SWAPS), sel("dup", fn=r"(swap|fill|row_pair)")] + L_ROWCUR("RowsMut") + L_COLCUR("ColMut")[:4] + L_VIEWS(True) + [sel("layout", fn=r"(get_unchecked|<rule>)"), sel("zero", fn=CTORS), sel_dyn(A_SWAPS)],
      "Swap/fill primitives, structural clauses: (R-GUARD) swap, swap_rows, swap_cols, row_pair_mut on the owned array, the mutable view and the provided defaults compare each index strictly with the right dimension (directly, via the ordered-swap idiom, or via nth(..).unwrap()); (R-UNITS) no row/column mix-up; (R-DUP) only swap primitives move elements. (R-LAYOUT) TooDee::swap addresses row*C+col for both cells (L-POS), both swap_rows overrides address [r1*S,+C) and [r2*S,+C) as polynomial identities after composing the nested slices (stride-aware for the view); (R-NTH) the provided swap_rows / row_pair_mut / swap that third-party implementors inherit address, through rows_mut().nth(a) followed by nth(k) (rows a and a+1+k), exactly the rows / cells named by their arguments on every path, row_pair_mut returning them in argument order; (R-GUARD) no normal return bypasses a bounds check; the layers the provided methods run on - RowsMut (R-CURSOR, R-OVF: nth(huge) must yield None so that unwrap panics), ColMut, rows_mut()/col_mut()/get_unchecked* of the three receivers (R-LAYOUT) and the mutable window constructors ('identically for owned arrays and views').")
-prop("C14", L_INV() + [sel("copyshape"), sel("nonzero", fn=r"(copy_|clone_from|CopyOps|<rule>)"), sel("guard", fn=r"copy_within"), sel("units", fn=r"(copy_|clone_from)"), sel("dup", fn=r"(copy_|clone_from|CopyOps)")] + L_ROWCUR() + L_VIEWS() + [sel("zero", fn=CTORS), sel_dyn(A_COPY)],
+prop("C14", L_INV() + [sel("encaps", fn=r"(<raw span>|raw span used by (TooDeeOpsMut|CopyOps|SortOps|TranslateOps|TooDeeViewMut|TooDee as ))"), sel("copyshape"), sel("nonzero", fn=r"(copy_|clone_from|CopyOps|<rule>)"), sel("guard", fn=r"copy_within"), sel("units", fn=r"(copy_|clone_from)"), sel("dup", fn=r"(copy_|clone_from|CopyOps)")] + L_ROWCUR() + L_VIEWS() + [sel("zero", fn=CTORS), sel_dyn(A_COPY)],
      "clauses only: guard/unit clauses of C14 - (R-COPYSHAPE) each of the eight copy functions compares the sizes with a diverging guard that dominates every write (or is one std slice copy of the whole buffer, which checks lengths) and transfers rows destination <- source from zip(rows_mut(), source rows); (R-GUARD) the six coordinates of copy_within are bounded against the dimension of their unit (directly or through the ordered source rectangle); (R-ARITH) no `+` on a caller coordinate before its guard; (R-UNITS) row offsets index rows, column offsets slice rows; (R-DUP) bitwise copies only under T: Copy via slice methods; (R-NONZERO) no chunks*/division sees a possibly-zero column count (empty destinations are valid shapes); the rows transferred come from Rows / RowsMut started by rows()/rows_mut() of source and destination (R-CURSOR, R-LAYOUT), over windows built by the view constructors.",
      declined=["row-major equality of the result as values; for overlapping rectangles the row ORDER is decided (overlap-order clause), the absence of any other read-after-write hazard inside one row copy is std's slice::copy_within / copy_from_slice contract"])
-prop("C15", L_INV() + [sel("flipshape"), sel("lockstep"), sel("noshift"), sel("layout", fn=r"get_unchecked_row_mut|<rule>"), sel("guard", fn=r"translate"), sel("units", fn=r"(translate|flip)"), sel("dup", fn=r"(Translate|translate|flip)")] + L_ROWCUR("RowsMut") + L_VIEWS(True) + [sel("zero", fn=CTORS), sel_dyn(A_TRANS)],
+prop("C15", L_INV() + [sel("encaps", fn=r"(<raw span>|raw span used by (TooDeeOpsMut|CopyOps|SortOps|TranslateOps|TooDeeViewMut|TooDee as ))"), sel("flipshape"), sel("lockstep"), sel("noshift"), sel("layout", fn=r"get_unchecked_row_mut|<rule>"), sel("guard", fn=r"translate"), sel("units", fn=r"(translate|flip)"), sel("dup", fn=r"(Translate|translate|flip)")] + L_ROWCUR("RowsMut") + L_VIEWS(True) + [sel("zero", fn=CTORS), sel_dyn(A_TRANS)],
      "clauses only: guard and permutation clauses of C15 - (R-FLIPSHAPE) flip_rows swaps next() with next_back() of one rows_mut() cursor, flip_cols reverses every row; mid <= (num_cols, num_rows) with the right units; translate.rs moves elements only with swap_with_slice / rotate_left / reverse on rows obtained from the trait (no element lost or duplicated); the unchecked row getters it relies on address row*stride .. +num_cols on every implementor (R-LAYOUT L-ROW); no cross-axis comparison of a mid-point with the other dimension (R-UNITS u1, also for equalities); (R-LOCKSTEP) in the cycle-leader loop of translate_with_wrap the row cursor and the running column offset are induction variables of one loop that are advanced on exactly the same iterations and re-initialised at the same loop depth (a necessary condition of 'row k of a cycle is rotated by k*col_mid'); the layers both algorithms run on: RowsMut and rows_mut() (R-CURSOR, R-LAYOUT) and the mutable window constructors ('on any array or view').",
      declined=["the position formula new[(c,r)] == old[((c+mc)%C,(r+mr)%R)] and index validity inside the cycle-leader loop (number theory, DESIGN 2.2): R-LOCKSTEP decides only that the two cursors move together, not that the walk visits every row once"])
-prop("C16", L_INV() + [sel("sortkey", fn=r"sort_.*row"), sel("deleg", fn=r"sort_.*row"), sel("sortshape", fn=r"sort_.*row|^sort::"), sel("guard", fn=r"sort_.*row"), sel("units", fn=r"sort_.*row"), sel("dup", fn=r"sort_.*row")] + L_ROWCUR("RowsMut") + L_VIEWS(True) + [sel("layout", fn=r"(Index<usize>|IndexMut<usize>|<rule>)"), sel("zero", fn=CTORS), sel_dyn(r"sort_.*row")],
+prop("C16", L_INV() + [sel("encaps", fn=r"(<raw span>|raw span used by (TooDeeOpsMut|CopyOps|SortOps|TranslateOps|TooDeeViewMut|TooDee as ))"), sel("sortkey", fn=r"sort_.*row"), sel("deleg", fn=r"sort_.*row"), sel("sortshape", fn=r"sort_.*row|^sort::"), sel("guard", fn=r"sort_.*row"), sel("units", fn=r"sort_.*row"), sel("dup", fn=r"sort_.*row")] + L_ROWCUR("RowsMut") + L_VIEWS(True) + [sel("layout", fn=r"(Index<usize>|IndexMut<usize>|<rule>)"), sel("zero", fn=CTORS), sel_dyn(r"sort_.*row")],
      "clauses only: sort-by-row family - (R-DELEG) each wrapper reaches the core of its own axis and stability with its index forwarded; (R-SORTSHAPE) s1 side sort of matching stability, s3 the key line is self[row] (resp. self.col(col)) of the given index, s2 comparator/key argument order, s4 the swap trace is applied to every row, s5 user code only before the first write; (R-GUARD) row < num_rows; (R-DUP) only ptr::swap moves elements; the layers the family runs on: the key row self[row] (R-LAYOUT of Index<usize> on the three receivers), RowsMut/rows_mut() through which the trace is applied, and the mutable window constructors.",
      declined=["build_swap_trace turning the permutation into transpositions; sortedness/stability as observed (std's contract given s1-s2)"])
-prop("C17", L_INV() + [sel("layout", fn=r"swap_rows|<rule>"), sel("nth", fn=r"swap_rows"), sel("sortkey", fn=r"sort_.*col"), sel("deleg", fn=r"sort_.*col"), sel("sortshape", fn=r"sort_.*col|^sort::"), sel("guard", fn=r"sort_.*col"), sel("units", fn=r"sort_.*col"), sel("dup", fn=r"sort_.*col")] + L_ROWCUR("RowsMut") + L_COLCUR("Col") + L_VIEWS(True) + [sel("zero", fn=CTORS), sel_dyn(r"sort_.*col")],
+prop("C17", L_INV() + [sel("encaps", fn=r"(<raw span>|raw span used by (TooDeeOpsMut|CopyOps|SortOps|TranslateOps|TooDeeViewMut|TooDee as ))"), sel("layout", fn=r"swap_rows|<rule>"), sel("nth", fn=r"swap_rows"), sel("sortkey", fn=r"sort_.*col"), sel("deleg", fn=r"sort_.*col"), sel("sortshape", fn=r"sort_.*col|^sort::"), sel("guard", fn=r"sort_.*col"), sel("units", fn=r"sort_.*col"), sel("dup", fn=r"sort_.*col")] + L_ROWCUR("RowsMut") + L_COLCUR("Col") + L_VIEWS(True) + [sel("zero", fn=CTORS), sel_dyn(r"sort_.*col")],
      "clauses only: sort-by-column family - as C16 with columns: wrappers reach the *_col cores (R-DELEG, R-UNITS u4), the trace is applied with swap_rows - whose three implementations move exactly the two named rows (R-LAYOUT L-SWAPROWS with the object's own stride, R-NTH for the default) - col < num_cols; the layers the family runs on: the key column self.col(col) (Col cursor and col() constructors, R-CURSOR/R-LAYOUT), RowsMut/rows_mut() under the default swap_rows, and the mutable window constructors.",
      declined=["as C16"])
 prop("C18", [sel("zero", fn=VIEWS), sel("serde")] + L_CELLS() + L_INV(),
@@ -318,3 +318,14 @@ for _pid in ("C02", "C03"):
     PROPS[_pid]["explanation"] += " (R-ARITH) no dimension or length is converted to an integer type narrower than usize on the way to an accessor (also through a helper's parameter)."
 PROPS["C16"]["explanation"] += " s1 applies to every override / hiding inherent method of a SortOps method as well."
 PROPS["C17"]["explanation"] += " s1 applies to every override / hiding inherent method of a SortOps method as well."
+
+for _pid in ("C13", "C14", "C15", "C16", "C17"):
+    PROPS[_pid]["explanation"] += " (R-ENCAPS) the in-place algorithms never reach into the raw span of a row / column cursor (which includes the cells between the rows of a strided view)."
+PROPS["C20"]["explanation"] += " An overridden `ne` is the negation of eq (calls it, or examines the same three fields); a crate type returned by the by-value into_iter forwards each iterator method within its own direction family."
+PROPS["C07"]["explanation"] += " The emptiness comparison of pop_* must decide whether remove_* runs (a switch one arm of which dominates the call, or the closure of `then`): `cond.then_some(self.remove_*(..))` evaluates the call first."
+for _pid in ("C06", "C11"):
+    PROPS[_pid]["explanation"] += " Every normal return of TooDee::reserve / reserve_exact has the room reserved: a panicking Vec::reserve*, or a try_reserve* whose failure panics."
+for _pid in ("C08", "C09", "C10"):
+    PROPS[_pid]["explanation"] += " size_hint / len: a plain `+` on the slice length itself adds at most the gap K (zero-sized cells make slices of usize::MAX elements real; L + K is still a length of the parent buffer, anything more can overflow)."
+for _pid in ("C18", "C19"):
+    PROPS[_pid]["explanation"] += " (t1c) no arm of the reader's key match reads the slot of another key, so the result does not depend on the order of the entries."
